@@ -11,6 +11,7 @@ D  C15's clauses evaluated directly on the implementation's outputs with Python'
 import itertools
 import json
 import os
+import re
 import sys
 
 from vlib import common as C
@@ -474,6 +475,92 @@ def gen_fmt_cases(tier, seed):
     return cases
 
 
+# values whose byte length, code-point count and grapheme count all differ: (koto literal, utf-8 byte length)
+WIDE_VALUES = [("'日本語'", 9), ("'é'", 2), ("'e\\u{301}x'", 4), ("'👨‍👩‍👧'", 18), ("'🇩🇪'", 8),
+               ("'a\\r\\nb'", 4), ("'한́a'", 6)]
+WIDE_FILLS = [None, "*", "é", "́"]
+
+
+def gen_fmt_wide_cases(tier, seed):
+    """value x EVERY width in 0..byte_len+2 x all alignments x fill in {none, ASCII, multi-byte, combining}"""
+    cases = []
+    for value, blen in WIDE_VALUES:
+        for w in range(0, blen + 3):
+            for al in FMT_ALIGN:
+                for fill in WIDE_FILLS:
+                    if fill is not None and al is None:
+                        # a fill character needs an alignment; use the zero flag slot for one more default-alignment case
+                        if fill != "*":
+                            continue
+                        full, f2 = f":0{w}", "0"
+                    else:
+                        full, f2 = ":" + (fill or "") + (al or "") + str(w), fill
+                    cases.append({"kind": "fmt", "origin": "format-wide", "value": value, "full": full, "bare": "", "fill": f2,
+                                  "align": al, "width": w, "is_num": False})
+    return cases
+
+
+def fmt_expected(c, r):
+    """the documented result, from the implementation's own rendering without a width and unicode-segmentation's
+    cluster count of it (computed in the harness): fill copies = width - clusters, placed by the alignment"""
+    w = c["width"] or 0
+    n = max(0, w - r["g_bare"])
+    al = c["align"]
+    if al == "<" or (al is None and not c["is_num"]):
+        l, rr = 0, n
+    elif al == ">" or al is None:
+        l, rr = n, 0
+    else:
+        l, rr = n // 2, n - n // 2
+    fill = (" " if c["fill"] is None else c["fill"]).encode("utf-8")
+    return list(fill * l + bytes(r["bare"]) + fill * rr), n
+
+
+def d_fmt(c, r):
+    """C15's clauses on one formatted field -> (failures, known ids)"""
+    fails, known = [], set()
+    src = f"x = {c['value']}; '{{x{c['full']}}}'"
+    if "panic" in r:
+        return [f"{src} panics: {r['panic']}"], known
+    if "full" not in r or "bare" not in r:
+        if ("full" in r) != ("bare" in r):
+            fails.append(f"{src}: only one of the interpolations with / without width is accepted: {r}")
+        return fails, known
+    w = c["width"] or 0
+    if not is_utf8(r["full"]):
+        fails.append(f"{src} is not valid UTF-8: {r['full']}")
+        return fails, known
+    exp, n = fmt_expected(c, r)
+    if r["full"] != exp:
+        fails.append(f"{src} gave {bytes(r['full'])!r}; with {r['g_bare']} clusters in the value, width {w} needs {n} fill "
+                     f"copies around the unchanged value: {bytes(exp)!r}")
+    elif r["g_full"] < w:
+        # exactly width - clusters(value) copies were added, yet there are fewer clusters: neighbours combined
+        known.add("C15g")
+    return fails, known
+
+
+HEX9 = re.compile(r"^u\{[0-9a-fA-F]{9,}")
+
+
+def d_esc(c, r):
+    body = "".join(chr(x) for x in c["body"])
+    if "panic" in r:
+        if HEX9.match(body):
+            return [], {"C15h"}      # narrowly: \u{ followed by more than 8 hex digits
+        return [f"the literal '\\{body}' panics the parser: {r['panic']} at {r.get('at')}"], set()
+    if r.get("esc", [0])[0] == 3:
+        return [f"the literal '\\{body}' evaluates to malformed UTF-8: {r['esc']}"], set()
+    return [], set()
+
+
+def d_fparse(c, r):
+    if "panic" in r:
+        spec = "".join(chr(x) for x in c["spec"])
+        return [f"the format spec {spec!r} panics the parser: {r['panic']} at {r.get('at')}"]
+    return []
+
+
 def fmt_term(c, r):
     al = {None: "ADefault", "<": "ALeft", "^": "ACenter", ">": "ARight"}[c["align"]]
     fill = b(" " if c["fill"] is None else c["fill"])
@@ -718,29 +805,25 @@ def run(tier, seed):
         chk.oblige("corr:model-vs-koto slicing/unpacking/iterator tables identical", False, "model unavailable")
 
     # ---- format grid: model of the padding in run_string_push vs the real interpolation
-    fcases = gen_fmt_cases(tier, seed)
+    other_fail = []        # (size key, case, failures, implementation's answer) for the non-str case kinds
+    other_disagreements = []
+    fcases = gen_fmt_cases(tier, seed) + gen_fmt_wide_cases(tier, seed)
     fimpl, fout = run_harness(binp, fcases, "fmt")
-    fmt_bad = []
     if fimpl is None:
         chk.oblige("corr:format padding model vs koto", False, "harness failed on the format grid")
     else:
-        live = [(c, r) for c, r in zip(fcases, fimpl) if "full" in r]
-        dist["format-grid"] = len(fcases)
+        live = [(c, r) for c, r in zip(fcases, fimpl) if "full" in r and "bare" in r]
+        for c in fcases:
+            dist[c["origin"]] = dist.get(c["origin"], 0) + 1
         dist["format-grid-rejected-spec"] = len(fcases) - len(live)
-        for c, r in live:
-            w = c["width"] or 0
-            chk.count_case(json.dumps([c["value"], c["full"]]), w > r["g_bare"])
-            if r["g_full"] < w:
-                # width clause of C15 on the implementation's own output
-                fills = (w - r["g_bare"])
-                additive = r["g_full"] == r["g_bare"] + fills
-                if not additive and is_utf8(r["full"]):
-                    chk.known(KNOWN["C15g"])
-                else:
-                    d_fail_fmt = f"'{{x{c['full']}}}' with x = {c['value']} has {r['g_full']} clusters, width {w}"
-                    fmt_bad.append((c, r, d_fail_fmt))
-            if not is_utf8(r["full"]):
-                fmt_bad.append((c, r, "formatted text is not valid UTF-8"))
+        for c, r in zip(fcases, fimpl):
+            fails, known = d_fmt(c, r)
+            for k in known:
+                chk.known(KNOWN[k])
+            if fails:
+                other_fail.append(((c["width"] or 0, len(c["value"])), c, fails, r))
+            if "full" in r:
+                chk.count_case(json.dumps([c["value"], c["full"]]), (c["width"] or 0) > r.get("g_bare", 0))
         if model_ok and live:
             header = "From KV.str Require Import StrBase FmtModel.\nOpen Scope N_scope.\n"
             try:
@@ -748,42 +831,41 @@ def run(tier, seed):
                 mism = [(c, r, v) for (c, r), v in zip(live, fvals) if v != r["full"]]
                 chk.oblige("corr:format padding model vs koto", not mism, f"{len(mism)} disagreements")
                 for c, r, v in mism[:1]:
-                    disagreements.append((0, "format", 0, v, r["full"]))
+                    other_disagreements.append(("format", c, v, r["full"]))
                     chk.log(f"format disagreement: x = {c['value']}, '{{x{c['full']}}}': model {bytes(v)!r} impl {bytes(r['full'])!r}")
             except RuntimeError as e:
                 chk.log(str(e)[-2000:])
                 chk.oblige("corr:format padding model vs koto", False, "model evaluation failed")
-    if fmt_bad:
-        c, r, why = fmt_bad[0]
-        chk.violation("input-format", {"kind": "input", "case": c, "impl_says": r, "predicate_failed": [why],
-                                       "others": len(fmt_bad) - 1})
-        chk.log(f"{len(fmt_bad)} format cases violate C15: {why}")
 
     # ---- format-spec parser: model of StringFormatOptions::parse vs the real parser
     pcases = gen_fparse_cases(tier, seed)
     pimpl, pout = run_harness(binp, pcases, "fparse")
-    fp_bad = []
     if pimpl is None:
         chk.oblige("corr:format-spec parser model vs koto", False, "harness failed on the format specs")
-    elif model_ok:
+    else:
         dist["format-spec"] = len(pcases)
-        header = "From KV.str Require Import StrBase FmtParse.\nOpen Scope N_scope.\n"
-        try:
-            pvals = C.coq_eval(UNIT, header, [f"enc_pres (parse (fun _ => {r.get('g', 1)}%nat) {C.coq_list(c['spec'])})"
-                                              for c, r in zip(pcases, pimpl)], tag="c15fp", per_shard=400)
-        except RuntimeError as e:
-            chk.log(str(e)[-2000:])
-            pvals = None
+        # D (independent of the model): no format spec panics the parser
+        for c, r in zip(pcases, pimpl):
+            fails = d_fparse(c, r)
+            if fails:
+                other_fail.append(((len(c["spec"]), 0), c, fails, r))
+        pvals = None
+        if model_ok:
+            header = "From KV.str Require Import StrBase FmtParse.\nOpen Scope N_scope.\n"
+            try:
+                pvals = C.coq_eval(UNIT, header, [f"enc_pres (parse (fun _ => {r.get('g', 1)}%nat) {C.coq_list(c['spec'])})"
+                                                  for c, r in zip(pcases, pimpl)], tag="c15fp", per_shard=400)
+            except RuntimeError as e:
+                chk.log(str(e)[-2000:])
         if pvals is None:
             chk.oblige("corr:format-spec parser model vs koto", False, "model evaluation failed")
         else:
             mism = []
             lexer_split = 0
             for c, r, m in zip(pcases, pimpl, pvals):
-                spec = "".join(chr(x) for x in c["spec"])
                 if "panic" in r:
-                    fp_bad.append((c, r, f"the format spec {spec!r} panics the parser"))
                     continue
+                spec = "".join(chr(x) for x in c["spec"])
                 chk.count_case("fparse:" + spec, r["fparse"][0] == 0 and len(spec) >= 2)
                 if r["fparse"] == [8]:
                     lexer_split += 1
@@ -793,48 +875,41 @@ def run(tier, seed):
             dist["format-spec-not-one-expression"] = lexer_split
             chk.oblige("corr:format-spec parser model vs koto", not mism, f"{len(mism)} disagreements")
             for c, got, m in mism[:1]:
-                disagreements.append((0, "format-spec", 0, m, got))
+                other_disagreements.append(("format-spec", c, m, got))
                 chk.log(f"format-spec disagreement: spec {c['spec']}: model {m}, koto {got}")
-    if fp_bad:
-        c, r, why = fp_bad[0]
-        chk.violation("input-format-spec", {"kind": "input", "case": c, "impl_says": r, "predicate_failed": [why],
-                                            "others": len(fp_bad) - 1})
-        chk.log(f"{len(fp_bad)} format specs violate C15: {why}")
-        fmt_bad = fmt_bad + fp_bad
 
     # ---- escape codes: model of escape_string_character vs the real parser
     ecases = gen_esc_cases(tier, seed)
     eimpl, eout = run_harness(binp, ecases, "esc")
-    esc_bad = []
     if eimpl is None:
         chk.oblige("corr:escape model vs koto parser", False, "harness failed on the escape cases")
-    elif model_ok:
+    else:
         dist["escapes"] = len(ecases)
-        header = "From KV.str Require Import StrBase EscModel.\nOpen Scope N_scope.\n"
-        try:
-            evals = C.coq_eval(UNIT, header, [f"enc_eres (escape {C.coq_list(c['body'])})" for c in ecases], tag="c15esc",
-                               per_shard=300)
-        except RuntimeError as e:
-            chk.log(str(e)[-2000:])
-            evals = None
-        mism = []
-        if evals is not None:
+        # D (independent of the model): an escape never panics and never yields malformed text
+        for c, r in zip(ecases, eimpl):
+            fails, known = d_esc(c, r)
+            for k in known:
+                chk.known(KNOWN[k])
+            if fails:
+                other_fail.append(((len(c["body"]), 0), c, fails, r))
+        evals = None
+        if model_ok:
+            header = "From KV.str Require Import StrBase EscModel.\nOpen Scope N_scope.\n"
+            try:
+                evals = C.coq_eval(UNIT, header, [f"enc_eres (escape {C.coq_list(c['body'])})" for c in ecases], tag="c15esc",
+                                   per_shard=300)
+            except RuntimeError as e:
+                chk.log(str(e)[-2000:])
+        if evals is None:
+            chk.oblige("corr:escape model vs koto parser", False, "model evaluation failed")
+        else:
+            mism = []
             for c, r, m in zip(ecases, eimpl, evals):
                 got = [4] if "panic" in r else r["esc"]
                 body = "".join(chr(x) for x in c["body"])
                 chk.count_case("esc:" + body, m[0] in (0, 1))
-                # D: an escape never panics and never yields malformed text
-                if got == [4]:
-                    if body.startswith("u{") and m == [4]:
-                        chk.known(KNOWN["C15h"])
-                    else:
-                        esc_bad.append((c, r, f"the literal '\\{body}' panics the parser"))
-                    continue
-                if got[0] == 3:
-                    esc_bad.append((c, r, f"the literal '\\{body}' evaluates to malformed UTF-8"))
-                    continue
                 exp = esc_expect(m)
-                if exp is None:
+                if exp is None or got[0] == 3:
                     continue
                 if got == [2] and exp != [2] and (body.startswith("\r") and not body.startswith("\r\n")):
                     continue      # the lexer rejects a bare CR line continuation before the parser sees it
@@ -842,32 +917,29 @@ def run(tier, seed):
                     mism.append((c, got, exp))
             chk.oblige("corr:escape model vs koto parser", not mism, f"{len(mism)} disagreements")
             for c, got, exp in mism[:1]:
-                disagreements.append((0, "escape", 0, exp, got))
+                other_disagreements.append(("escape", c, exp, got))
                 chk.log(f"escape disagreement: body {c['body']}: model expects {exp}, koto gives {got}")
-        else:
-            chk.oblige("corr:escape model vs koto parser", False, "model evaluation failed")
-    if esc_bad:
-        c, r, why = esc_bad[0]
-        chk.violation("input-escape", {"kind": "input", "case": c, "impl_says": r, "predicate_failed": [why],
-                                       "others": len(esc_bad) - 1})
-        chk.log(f"{len(esc_bad)} escape cases violate C15: {why}")
-        fmt_bad = fmt_bad + esc_bad
 
-    # ---- verdict
+    # ---- verdict: a failing clause (or a panic) on ANY case kind is an input violation with that case as replay
     def size_key(x):
         return (len(cases[x[0]]["s"]), cases[x[0]]["variant"])
 
-    if d_fail:
-        d_fail.sort(key=size_key)
-        i, fails = d_fail[0]
-        c = cases[i]
-        chk.violation("input", {"kind": "input", "case": {k: v for k, v in c.items()}, "case_text": case_text(c),
-                                "predicate_failed": fails[:10], "others": len(d_fail) - 1,
-                                "how_to_rerun": "./check C15 --replay <this file>"})
-        chk.log(f"{len(d_fail)} inputs violate C15 on the implementation; smallest: {case_text(c)!r} "
-                f"variant {c['variant']}: {fails[:2]}")
+    all_fail = [((len(cases[i]["s"]), cases[i]["variant"]), cases[i], fails, None) for i, fails in d_fail] + other_fail
+    if all_fail:
+        all_fail.sort(key=lambda x: (x[0], json.dumps(x[1], sort_keys=True)))
+        _, c, fails, r = all_fail[0]
+        payload = {"kind": "input", "case": dict(c), "predicate_failed": fails[:10], "others": len(all_fail) - 1,
+                   "how_to_rerun": "./check C15 --replay <this file>"}
+        if c.get("kind", "str") == "str":
+            payload["case_text"] = case_text(c)
+        if r is not None:
+            payload["impl_says"] = r
+        chk.violation("input", payload)
+        what = repr(case_text(c)) + f" variant {c['variant']}" if c.get("kind", "str") == "str" else json.dumps(
+            {k: v for k, v in c.items() if k in ("kind", "value", "full", "spec", "body")}, ensure_ascii=False)
+        chk.log(f"{len(all_fail)} inputs violate C15 on the implementation; smallest: {what}: {fails[:2]}")
     broken = [o for o in chk.obligations if not o[1]]
-    if broken and not d_fail and not fmt_bad:
+    if broken and not all_fail:
         payload = {"kind": "obligation", "broken": [o[0] + (": " + o[2] if o[2] else "") for o in broken]}
         if disagreements:
             disagreements.sort(key=size_key)
@@ -879,6 +951,9 @@ def run(tier, seed):
                                     "input, but the output no longer matches the model the theorems are about"})
             chk.log(f"{len(disagreements)} model/impl disagreements; smallest: {case_text(c)!r} variant {c['variant']} "
                     f"table {name} entry {pos}: model {m} impl {x}")
+        elif other_disagreements:
+            name, c, m, x = other_disagreements[0]
+            payload.update({"smallest_disagreement": {"case": c, "table": name, "model_says": m, "impl_says": x}})
         chk.violation("obligation", payload, no_input=True)
 
     tb = ["Coq 8.16.1 kernel (coqc); vm_compute for evaluating the model",
@@ -907,34 +982,14 @@ def replay(path, args):
         print("replay file names an obligation, not an input:", json.dumps(data.get("broken")))
         return run("quick", data.get("seed", 1))
     binp, blog = C.build_harness("kh_str")
-    if c.get("kind") == "fparse":
+    if c.get("kind") in ("fparse", "esc", "fmt"):
         impl, out = run_harness(binp, [c], "replay")
-        r = impl[0] if impl else {}
-        print(json.dumps(r))
-        if "panic" in r:
-            print(f"VIOLATION property={PID} replay={path}")
-            return 1
-        print("no clause of C15 fails on this input")
-        return 0
-    if c.get("kind") == "esc":
-        impl, out = run_harness(binp, [c], "replay")
-        r = impl[0] if impl else {}
-        print(json.dumps(r))
-        if "panic" in r or r.get("esc", [0])[0] == 3:
-            print(f"VIOLATION property={PID} replay={path}")
-            return 1
-        print("no clause of C15 fails on this input")
-        return 0
-    if c.get("kind") == "fmt":
-        impl, out = run_harness(binp, [c], "replay")
-        r = impl[0] if impl else {}
-        print(json.dumps(r))
-        w = c["width"] or 0
-        if "full" in r and (r["g_full"] < w and r["g_full"] == r["g_bare"] + (w - r["g_bare"]) or not is_utf8(r["full"])):
-            print(f"VIOLATION property={PID} replay={path}")
-            return 1
-        if "full" in r and r["g_full"] < w:
-            print(f"  fewer clusters ({r['g_full']}) than the width {w}")
+        r = impl[0] if impl else {"panic": "harness crashed"}
+        print(json.dumps(r, ensure_ascii=False))
+        fails = d_fparse(c, r) if c["kind"] == "fparse" else d_esc(c, r)[0] if c["kind"] == "esc" else d_fmt(c, r)[0]
+        for f in fails:
+            print("  " + f)
+        if fails:
             print(f"VIOLATION property={PID} replay={path}")
             return 1
         print("no clause of C15 fails on this input")
